@@ -451,6 +451,37 @@ def run_histories(ctx, nwalks):
 
 
 # ----------------------------------------------------------------------------
+# profiles owned by forward models (spec/ProfileOwner.tla, harness/fx_c12owner.py)
+# ----------------------------------------------------------------------------
+
+def owner_imports():
+    from taurex.model import TransmissionModel, EmissionModel
+    from taurex.data import Planet
+    from taurex.data.stellar import BlackbodyStar
+    from taurex.data.profiles.chemistry import TaurexChemistry
+    return dict(C=classes(), TransmissionModel=TransmissionModel, EmissionModel=EmissionModel, Planet=Planet,
+                BlackbodyStar=BlackbodyStar, TaurexChemistry=TaurexChemistry)
+
+
+def run_owners(ctx, nwalks):
+    """Planet, layer count and pressure grid of a profile belong to the forward model that hands them over at
+    every evaluation: design-level check of the hand-over (with the as-built variants that expose a stale planet
+    refuted), then TLC-generated walks over the models' own fitting parameters on real models."""
+    from ..fx_c12owner import run_owner
+    q = ctx.tier == 'quick'
+    ctx.check_spec('exhaustive-owner', 'ProfileOwner', 'MC_ProfileOwner_%s.cfg' % ctx.tier,
+                   need_actions=('SetOwn', 'SetCtl', 'Rebuild', 'Evaluate'), workers=1 if q else 16)
+    ctx.expect_refuted('refute-owner-frozen-and-skipped', 'ProfileOwner', 'RF_ProfileOwner_frozen_skip.cfg', 'ObservedIsCurrent', workers=1)
+    if not q:
+        ctx.check_spec('exhaustive-owner-frozen-only', 'ProfileOwner', 'MC_ProfileOwner_frozen_only.cfg')
+        ctx.check_spec('exhaustive-owner-skip-only', 'ProfileOwner', 'MC_ProfileOwner_skip_only.cfg')
+        ctx.expect_refuted('refute-owner-skip-keyed-on-grid', 'ProfileOwner', 'RF_ProfileOwner_grid_skip.cfg', 'ObservedIsCurrent')
+    nt, nev, nfresh = run_owner(ctx, owner_imports(), guillot_indep, nwalks)
+    ctx.note('owner walks: %d traces on forward models sharing one profile object (planet_radius, planet_mass, atm_max/min_pressure, '
+             'profile control through the model, rebuilds), %d evaluations against %d freshly built models and the absolute clauses' % (nt, nev, nfresh))
+
+
+# ----------------------------------------------------------------------------
 # binding B: recipes -> events
 # ----------------------------------------------------------------------------
 
@@ -848,6 +879,8 @@ def run(ctx):
     ctx.note('trace events: %d range (layer counts %d..%d, %d distinct), %d exact npoint, %d guillot' % (nr, ns[0], ns[-1], len(ns), nn, ng))
     # ---- history independence of long-lived objects
     run_histories(ctx, 12 if q else 120)
+    # ---- the same inside forward models: planet and grid are the model's, changed through its parameters
+    run_owners(ctx, 12 if q else 150)
 
 
 def replay(ctx, violations):
@@ -866,6 +899,9 @@ def replay(ctx, violations):
                 run_file_vector(ctx, {k: w for k, w in v.items() if k not in ('kind_', 'idx')}, tmp, v.get('idx', 0))
             finally:
                 shutil.rmtree(tmp, ignore_errors=True)
+        elif 'owner' in v:
+            from ..fx_c12owner import replay_owner
+            replay_owner(ctx, owner_imports(), guillot_indep, v)
         elif 'history' in v:
             import tempfile, shutil
             from ..fx_profiles import replay_trail
